@@ -261,12 +261,13 @@ class ProbeFC(object):
     """Probe fill/compute accumulator: records fills, yields one result that
     names everything filled.  May raise LenaStopFill at its k-th fill."""
 
-    def __init__(self, log, name, stop_at=None, results=1, stamp=None):
+    def __init__(self, log, name, stop_at=None, results=1, stamp=None, err_at=None):
         self.stamp = stamp
         self.log = log
         self.name = name
         self.filled = []
         self.stop_at = stop_at
+        self.err_at = err_at        # raises a Lena exception that is NOT a stop signal
         self.nfills = 0
         self.computes = 0
         self.results = results
@@ -274,6 +275,9 @@ class ProbeFC(object):
     def fill(self, value):
         k = self.nfills
         self.nfills += 1
+        if self.err_at is not None and k == self.err_at:
+            self.log.ev("raise", self.name, "LenaValueError", k)
+            raise lena.core.LenaValueError("injected at fill %d of %s" % (k, self.name))
         if self.stop_at is not None and k >= self.stop_at:
             self.log.ev("stopfill", self.name, k)
             raise lena.core.LenaStopFill()
@@ -294,11 +298,12 @@ class ProbeFR(object):
     """Probe fill/request element: request() yields one tagged result naming
     the values filled since the previous request (and forgets them)."""
 
-    def __init__(self, log, name, stop_at=None, results=1, keep=False):
+    def __init__(self, log, name, stop_at=None, results=1, keep=False, err_at=None):
         self.log = log
         self.name = name
         self.filled = []
         self.stop_at = stop_at
+        self.err_at = err_at
         self.nfills = 0
         self.requests = 0
         self.resets = 0
@@ -308,6 +313,9 @@ class ProbeFR(object):
     def fill(self, value):
         k = self.nfills
         self.nfills += 1
+        if self.err_at is not None and k == self.err_at:
+            self.log.ev("raise", self.name, "LenaValueError", k)
+            raise lena.core.LenaValueError("injected at fill %d of %s" % (k, self.name))
         if self.stop_at is not None and k >= self.stop_at:
             self.log.ev("stopfill", self.name, k)
             raise lena.core.LenaStopFill()
